@@ -48,35 +48,40 @@ def extract_counterexample(scratch, h, features=(), what=""):
     # announced by a doc comment "Check for `<kind>`: "<description>"": pick the one that
     # belongs to the failing check
     blocks = txt.split("Concrete playback unit test for")[1:]
-    chosen = None
-    fallback = None
+    first, second, third = [], [], []
     for b in blocks:
         km = re.search(r"Check for `(\w+)`: (.*)", b)
         kind = km.group(1) if km else ""
         desc = km.group(2) if km else ""
-        if kind == "cover" or "COVER:" in desc:
+        is_cover = kind == "cover" or "COVER:" in desc
+        if what.startswith("COVER:"):
+            (first if what in desc else third).append(b)
+        elif what.startswith("panic:"):
+            (third if is_cover else (second if "VERIF" in desc else first)).append(b)
+        elif ("VERIF:" + what) in desc:
+            first.append(b)
+        else:
+            # Kani de-duplicates generated tests with identical values: the failing check's own test
+            # can be missing when a cover witness has the same input -- those are tried last
+            (third if is_cover else second).append(b)
+    out = []
+    for b in first + second + third:
+        m = re.search(r"let concrete_vals: Vec<Vec<u8>> = vec!\[(.*?)\];\s*kani::concrete_playback_run", b, re.S)
+        if not m:
             continue
-        if fallback is None:
-            fallback = b
-        if what.startswith("panic:"):
-            if "VERIF" not in desc and chosen is None:
-                chosen = b
-        elif ("VERIF:" + what) in desc and chosen is None:
-            chosen = b
-    b = chosen or fallback
-    if b is None:
+        data = bytearray()
+        for vm in re.finditer(r"vec!\[([0-9,\s]*)\]", m.group(1)):
+            for tok in vm.group(1).split(","):
+                tok = tok.strip()
+                if tok:
+                    data.append(int(tok))
+        if bytes(data) not in out:
+            out.append(bytes(data))
+    if not out:
         return None, txt[-2000:]
-    m = re.search(r"let concrete_vals: Vec<Vec<u8>> = vec!\[(.*?)\];\s*kani::concrete_playback_run", b, re.S)
-    if not m:
-        return None, txt[-2000:]
-    body = m.group(1)
-    data = bytearray()
-    for vm in re.finditer(r"vec!\[([0-9,\s]*)\]", body):
-        for tok in vm.group(1).split(","):
-            tok = tok.strip()
-            if tok:
-                data.append(int(tok))
-    return bytes(data), ""
+    if what.startswith("COVER:"):
+        return out[0], ""
+    return out, ""
 
 
 def native_replay(h, hexinput, keep=False, profile="dev", features=()):
@@ -121,11 +126,15 @@ def confirm(pid, h, what, scratches, keep=False, features=()):
     if scratch is None:
         return {"reproduced": False, "detail": "no scratch copy to extract the counterexample from"}
     t0 = time.time()
-    data, err = extract_counterexample(scratch, h, list(h.cfgs) + list(features), what)
-    if data is None:
+    cands, err = extract_counterexample(scratch, h, list(h.cfgs) + list(features), what)
+    if cands is None:
         return {"reproduced": False, "detail": "concrete playback produced no values: " + err[-400:]}
-    hexs = data.hex()
-    r = native_replay(h, hexs, keep=keep, features=features)
+    hexs, r = "", None
+    for data in cands[:3]:
+        hexs = data.hex()
+        r = native_replay(h, hexs, keep=keep, features=features)
+        if r["ran"] and r["failed"] and matches(what, r["detail"]):
+            break
     os.makedirs(os.path.join(C.VERIF, "replays", pid), exist_ok=True)
     path = os.path.join(C.VERIF, "replays", pid, h.name + ".json")
     rec = {
@@ -148,7 +157,13 @@ def matches(what, native_detail):
     or -- for a panic inside the code under test -- a panic that is not a harness assertion."""
     if what.startswith("panic:"):
         return "VERIF" not in native_detail
-    return ("VERIF:" + what) in native_detail
+    if ("VERIF:" + what) in native_detail:
+        return True
+    # natively (no Kani stubs, real dependencies) the same input may trip a different assertion of
+    # the same harness first; it counts if that assertion belongs to the same property
+    props = what.split(":")[0].split("+")
+    m = re.search(r"VERIF:(C\d+(?:\+C\d+)*):", native_detail)
+    return bool(m and any(p in m.group(1).split("+") for p in props))
 
 
 def replay_file(pid, path, keep=False):
@@ -167,3 +182,24 @@ def replay_file(pid, path, keep=False):
         return 2
     print("replay passes on the current tree: " + r["detail"])
     return 0
+
+
+def validate_witness(pid, h, cover, scratches, keep=False):
+    """Positive replay: the solver's witness for a satisfied cover of a *passing* harness is run
+    natively against the real dependencies; the harness body (all its assertions) must pass there
+    too.  Returns (ok, detail)."""
+    scratch = None
+    for s in scratches:
+        if os.path.isdir(s) and (("-client" in os.path.basename(s)) == (h.target == "client")):
+            scratch = s
+    if scratch is None:
+        return None, "no scratch copy"
+    data, err = extract_counterexample(scratch, h, list(h.cfgs), cover)
+    if data is None:
+        return None, "no witness extracted: " + err[-200:]
+    r = native_replay(h, data.hex(), keep=keep)
+    if not r["ran"]:
+        return None, "native run did not start: " + r["detail"]
+    if r["failed"]:
+        return False, r["detail"]
+    return True, "witness %s of %s passes natively (input %d bytes)" % (cover, h.name, len(data))
